@@ -633,4 +633,28 @@ def Joinable (mac : MacFn) (net : Net) (edges : List Edge) (src dst : Nat) : Pro
 def Unexpired (nowMs : Nat) (c : Cursor) : Prop :=
   ∀ s ∈ c.segs, ∀ h ∈ s.hops, expired nowMs s.info.ts h.exp = false
 
+/-! ### What a stopped packet is answered with, and where the answer goes (C10) -/
+
+/-- what a router that stopped a packet sends back, and where: the reply path and the link it
+    leaves on (the link the packet came in on) -/
+def replyOf (o : Out) (arr : Arrival) : Option Cursor :=
+  match o with
+  | .slow _ _ _ c => scmpPrepare c (arr.ifid != 0)
+  | .alert _ _ c => scmpPrepare c (arr.ifid != 0)
+  | _ => none
+
+/-- continue a run with the reply of the router that stopped the packet -/
+def followReply (mac : MacFn) (net : Net) (now src : Nat) (a r : Nat) (arr : Arrival) (rc : Cursor) :
+    Result :=
+  match arr with
+  | .host => .delivered a [] rc
+  | .sibling k => run mac net now a src (fuelFor rc) a k (.sibling r) rc []
+  | .ext i =>
+    match (net a).iface i with
+    | some f =>
+      match (net f.nbr).iface f.nbrIf with
+      | some g => run mac net now a src (fuelFor rc) f.nbr g.owner (.ext f.nbrIf) rc [(a, i), (f.nbr, f.nbrIf)]
+      | none => .lost []
+    | none => .lost []
+
 end Scion.Net
